@@ -65,6 +65,9 @@ def eventOf : List String → Option Event
   | ["ban", i] => i.toNat?.map .ban
   | ["unban", i] => i.toNat?.map .unban
   | ["banp", i] => i.toNat?.map .banp
+  -- a lapsed ban, then a new ban placed before the asynchronous unban of the lapsed one runs: the new ban stands
+  | ["reban", i, "p"] => i.toNat?.map .banp
+  | ["reban", i, "t"] => i.toNat?.map .ban
   | ["bans", i] => i.toNat?.map .bans
   | ["bl", i] => i.toNat?.map .bl
   | ["unbl", i] => i.toNat?.map .unbl
